@@ -61,6 +61,44 @@ def _guard(dis, fn, *args):
         return None
 
 
+def regen(ctx):
+    """Rewrite lean/LitexModel/Generated/EccTables.lean from the elaborated netlists (see c18lib.regen_tables)."""
+    try:
+        # the constructors call the geometry helpers: if one of them no longer terminates (or raises) for the widest
+        # word, do not elaborate 19 widths - leave the file alone and let `geometry` report the helper
+        E = L.ecc()
+        with L.alarm(5, "geometry helpers for k=128"):
+            m, n = E.compute_m_n(128)
+            E.compute_syndrome_positions(136), E.compute_data_positions(136)
+            for i in range(8):
+                E.compute_cover_positions(136, 2 ** i)
+        changed, problems = L.regen_tables(ctx.seed)
+    except Exception as e:     # a changed tree on which not even the extraction runs: reported by correspond
+        changed, problems = False, [{"kind": "elaboration", "k": None, "what": "table regeneration raised %r" % (e,)}]
+    if changed:
+        ctx.log("regen: lean/LitexModel/Generated/EccTables.lean CHANGED (the netlists implement other GF(2) tables)")
+    ctx.c18_regen = (changed, problems)
+
+
+def tables_cases(ctx):
+    """The regenerated tables as evidence: rows extracted, linearity samples, the model's generator rows through the
+    driver (`call rows`) for the widths whose rows the kernel does not evaluate."""
+    dis = []
+    changed, problems = getattr(ctx, "c18_regen", (False, []))
+    dis += problems
+    ks = sorted(L.TABLES)
+    nrows = sum(len(t["encRows"]) + 3 * len(t["decSingle"]) + len(t["decPass"]) for t in L.TABLES.values())
+    if ks:
+        ans = ctx.lean.call_batch(["rows %d" % k for k in ks])
+        for k, a in zip(ks, ans):
+            if a != _fmt(L.TABLES[k]["encRows"]):
+                dis.append({"kind": "correspondence", "k": k, "what": "generator matrix (encoder on the unit vectors)",
+                            "impl": _fmt(L.TABLES[k]["encRows"])[:200], "model": str(a)[:200]})
+    ctx.cov.add_cases("GF(2) tables regenerated from the netlists, k in %s (rows; generator rows vs model through the driver)"
+                      % (",".join(map(str, ks)),), nrows, nrows, exhaustive=True)
+    return dis
+
+
 def geometry(ctx):
     """All geometry helpers, every k in 1..512 (through `call`).  The lengths n and strides p that are compared come
     from k through the Hamming bound (c18lib.ref_m_n) and from n itself, never from what the helpers return."""
@@ -196,6 +234,7 @@ def correspond(ctx):
         ctx.log("a geometry helper hangs; netlist jobs skipped")
         ctx.c18_dis = [Dis(d) for d in dis]
         return ctx.c18_dis
+    dis += tables_cases(ctx)
     jobs = netlist_jobs(ctx.tier, ctx.rng)
     cc = corpus_cases()
     for k in sorted({c["k"] for c in cc}):       # one job per width (netlist elaboration dominates)
@@ -216,6 +255,18 @@ def correspond(ctx):
 
 def search(ctx, disagreements, proof_info):
     """Failing-input search on the real code with the model-independent oracle only."""
+    # 0. the kernel check against the regenerated tables broke: the runner skipped `correspond`.  The tables say where
+    #    the netlists changed (directed candidates); then the monitors of the very jobs `correspond` would have run.
+    if not hasattr(ctx, "c18_dis") and not list(disagreements):
+        hit = _directed_from_tables(ctx)
+        if hit:
+            return hit
+        jobs = netlist_jobs(ctx.tier, ctx.rng)
+        cc = corpus_cases()
+        for k in sorted({c["k"] for c in cc}):
+            jobs.append((L.job_corpus, ([c for c in cc if c["k"] == k],), {}))
+        res = L.run_pool(ctx.seed, jobs, monitor_only=True, timeout=100 if ctx.tier == "quick" else 1200)
+        ctx.c18_dis = [Dis(d) for r in res for d in r["dis"]] + [Dis(d) for d in getattr(ctx, "c18_regen", (0, []))[1]]
     # 1. a monitor (oracle) that already fired during correspondence (smallest width first)
     disagreements = list(disagreements) or list(getattr(ctx, "c18_dis", []))
     disagreements = sorted(disagreements, key=lambda d: d.get("k") if isinstance(d.get("k"), int) else 1 << 30)
@@ -252,6 +303,49 @@ def search(ctx, disagreements, proof_info):
             if d.get("kind") in ("elaboration", "timeout", "exception"):
                 return {"k": d.get("k"), "last_inputs": d.get("last_inputs"),
                         "oracle": "no usable encoder/decoder for this supported width (%s): %s" % (d["kind"], d["what"])}
+    return None
+
+
+def _directed_from_tables(ctx):
+    """Entries of the regenerated tables that differ from the textbook code name candidate inputs; the property oracle
+    decides on the real code (smallest width first)."""
+    import itertools
+    for k in sorted(L.TABLES):
+        t = L.TABLES[k]
+        nb = t["nbits"]
+        cands = []
+        for j, v in enumerate(t["decSingle"]):
+            if v != (0 if j == 0 else 2):
+                cands.append((0, (j,), 1))
+        if t["decClean"] != 0:
+            cands.append((0, (), 1))
+        for j, v in enumerate(t["decPass"]):
+            if v != L.ref_extract(k, 1 << j) * 4:
+                cands += [(d, (), 0) for d in (1, (1 << k) - 1)] + [(1 << b, (), 0) for b in range(k)]
+                break
+        bad_rows = [b for b, v in enumerate(t["encRows"]) if v != L.ref_encode(k, 1 << b)]
+        if t["encZero"] != 0:
+            bad_rows.append(None)
+        flipsets = [()] + [(j,) for j in range(nb)] + list(itertools.combinations(range(min(nb, 24)), 2))
+        for b in bad_rows[:4]:
+            cands += [(0 if b is None else 1 << b, f, 1) for f in flipsets]
+        if not cands:
+            continue
+        try:
+            r = L.RealEcc(k)
+        except Exception:
+            continue
+        for d, flips, en in cands[:1500]:
+            cw = r.encode(d)
+            w = cw
+            for j in flips:
+                w ^= 1 << j
+            out = r.decode(en, w)
+            m = L.oracle(k, r.n_impl, d, cw, flips, en, out)
+            if m:
+                return {"k": k, "data": d, "flips": list(flips), "enable": en, "encoder_out": cw,
+                        "decoder_out(o,sec,ded)": list(out), "oracle": m + " [candidate named by the regenerated tables]",
+                        "format": "flips = bit positions of the n+1-bit code word that were inverted (0 = overall parity bit)"}
     return None
 
 
